@@ -384,7 +384,7 @@ pub fn map_sweep<T: Elem>(ctx: &mut Ctx, t: Target<T>, nan: bool) {
             // boundary x boundary, then random pairs
             let nb = bounds.len();
             let nrandom: u64 = match (tier, t.r.safe) {
-                (Tier::Quick, _) => 12_000,
+                (Tier::Quick, _) => 60_000,
                 (Tier::Thorough, true) => 200_000,
                 (Tier::Thorough, false) => 1_500_000,
             };
